@@ -12,6 +12,10 @@ macro_rules! cfg {
 }
 
 fn main() {
+    vengine::on_worker_stack(real_main);
+}
+
+fn real_main() {
     let mut run = Run::from_args("C19", "c19t");
     vcore::core_configs!(cfg, &mut run);
     if run.tier == Tier::Quick {
